@@ -88,6 +88,25 @@ pub fn case(t: &mut Tape, scratch: &Scratch) -> CaseResult {
                 json!({"needed_options": needed, "missing": missing, "unneeded": extra, "project": pj}),
             ));
         }
+        // the answer must not depend on what was asked of this instance before: build drivers with every extra
+        // option (`t*_format!` users do that), then ask again
+        {
+            let all = [Options::Plurals, Options::FormatDateTime, Options::FormatList, Options::FormatNums, Options::FormatCurrency];
+            let extras: Vec<Options> = all.iter().filter(|o| !needed.iter().any(|n| format!("{:?}", to_opt(n)) == format!("{:?}", o))).cloned().collect();
+            let _ = infos.build_datagen_driver_with_options(extras);
+            let _ = infos.build_datagen_driver();
+            let again: BTreeSet<String> = infos.get_icu_keys().map(|k| format!("{:?}", k)).collect();
+            observations += 1;
+            if again != expected {
+                let extra: Vec<_> = again.difference(&expected).cloned().collect();
+                let missing: Vec<_> = expected.difference(&again).cloned().collect();
+                return Err(fail(
+                    "icu-keys-depend-on-earlier-calls",
+                    json!({"sequence": ["get_icu_keys()", "build_datagen_driver_with_options(<every option the project does not need>)", "build_datagen_driver()", "get_icu_keys()"],
+                           "needed_options": needed, "unneeded_in_second_answer": extra, "missing_in_second_answer": missing, "project": pj}),
+                ));
+            }
+        }
         let locs: Vec<String> = infos.get_locales().map(|s| s.to_string()).collect();
         observations += 1;
         if locs != p.locales {
@@ -152,7 +171,7 @@ pub fn run(mut ctx: Ctx) -> ! {
          and in varied places (default locale, one other locale only, nested subkeys, later namespaces, reachable only through `$t`, \
          surplus keys that are unreachable). oracle: TranslationsInfos::get_icu_keys() as a set equals the union of \
          Options::into_data_keys over the option families the AST needs for accessible keys (both directions), get_locales / \
-         get_locales_langids equal the configured locales with the default first, get_namespaces equals the configured namespaces. \
+         get_locales_langids equal the configured locales with the default first, get_namespaces equals the configured namespaces; after building datagen drivers with every option the project does not need, get_icu_keys() gives the same set again. \
          non-trivial = a needed family that the default locale's top-level keys of the first namespace do not show; distinct = project hash",
         &["formatter option values are not part of this property (C18)"],
         20,
